@@ -566,19 +566,29 @@ func c36Case(r *mc.Run, ia addr.IA, tl *c36Timeline, ringName string, ring c36Ri
 		if !p.exp.After(time.Now()) {
 			continue
 		}
-		// one second before the expiry the signer still signs
-		if before := p.exp.Add(-time.Second); before.After(time.Now()) {
-			time.Sleep(time.Until(before))
-			if _, err := p.s.Sign(ctx, body); err != nil {
-				viol("unexpired-signer-refuses", fmt.Sprintf("1s before expiry %v: %v", p.exp, err))
+		// around the expiry instant with sub-second resolution: strictly before it the signer still signs, at the
+		// instant itself either answer is accepted, strictly after it signing must fail
+		for _, off := range []time.Duration{-time.Second, -time.Millisecond, -time.Nanosecond, 0, time.Nanosecond, time.Millisecond,
+			500 * time.Millisecond, 999 * time.Millisecond, time.Second, time.Second + time.Nanosecond, 1500 * time.Millisecond} {
+			at := p.exp.Add(off)
+			if at.Before(time.Now()) {
+				continue
 			}
-		}
-		time.Sleep(time.Until(p.exp.Add(time.Second)))
-		r.CaseBulk(1, 1)
-		if _, err := p.s.Sign(ctx, body); err == nil {
-			viol("expired-signer-signs", fmt.Sprintf("signer with expiry %v signs at %v", p.exp, time.Now()))
-		} else {
-			r.Outcome("sign:refused-after-expiry")
+			time.Sleep(time.Until(at))
+			_, err := p.s.Sign(ctx, body)
+			r.CaseBulk(1, 1)
+			switch {
+			case off < 0 && err != nil:
+				viol("unexpired-signer-refuses", fmt.Sprintf("%v before expiry %v: %v", -off, p.exp, err))
+			case off < 0:
+				r.Outcome("sign:ok-before-expiry")
+			case off == 0:
+				r.Outcome("sign:boundary-instant")
+			case err == nil:
+				viol("expired-signer-signs", fmt.Sprintf("signer with expiry %v signs at %v (%v after it)", p.exp, time.Now(), off))
+			default:
+				r.Outcome("sign:refused-after-expiry")
+			}
 		}
 	}
 	if sample {
